@@ -36,7 +36,9 @@ ASSUME = [
 # verdict bit -> (category the toolchains report, default known-finding key)
 BITS = {1: ("render", None), 2: ("dbu", "py-nested-import"), 4: ("unique", "helper-collision"),
         8: ("import", "import-filename"), 16: ("unused", "go-unused-import"), 32: ("layout", "empty-struct"),
-        64: ("align", "align-nonpow2"), 128: ("syntax", None)}
+        64: ("align", None), 128: ("syntax", None)}
+# bit 64 (alignment that gcc refuses) belonged to the finding align-nonpow2, FIXED in /repo (6935f33): the
+# compiler now rejects such a schema; if one is ever accepted again, the gcc failure is a plain VIOLATION.
 # bits 1 (the Python renderer raises) and 128 (unescaped string constant) belonged to the findings
 # empty-enum and str-escape, FIXED in /repo: the model never predicts them any more, and a toolchain
 # failure of that kind is a plain VIOLATION
@@ -113,7 +115,13 @@ def inject(job: Dict[str, Any], cls: str, rng) -> Optional[Dict[str, Any]]:
         return None
     files[root] += add
     tag = "feature-of-fixed-finding" if cls in FIXED_CLASSES else "inside-known-class"
-    return {"files": files, "order": order, "filter": job.get("filter") or [], "origin": f"{tag}:{cls}"}
+    out = {"files": files, "order": order, "filter": job.get("filter") or [], "origin": f"{tag}:{cls}"}
+    if cls == "align-nonpow2":
+        # FIXED finding: the compiler must now REJECT the schema (regression: if it is accepted again the
+        # usual path runs and the gcc failure is reported as a violation with this input)
+        out["origin"] = f"regression-of-fixed-finding:{cls}"
+        out["expect_reject"] = "c.struct_packing_alignment"
+    return out
 
 
 # ---- one job -> Coq --------------------------------------------------------------------------------
@@ -242,7 +250,7 @@ def key_for(bit: int, guards: int, lang: str) -> Optional[str]:
     if bit == 32:
         return "empty-struct" if guards & 128 else None
     if bit == 64:
-        return "align-nonpow2" if guards & 256 else None
+        return None
     return None
 
 
@@ -270,7 +278,8 @@ def run(ck: Check) -> None:
         except Exception:
             continue
         jobs.append({"files": c["files"], "order": c["order"], "filter": c.get("filter") or [],
-                     "modes": c.get("modes"), "origin": "corpus:" + os.path.basename(p), "expect": c.get("expect")})
+                     "modes": c.get("modes"), "origin": "corpus:" + os.path.basename(p), "expect": c.get("expect"),
+                     "expect_reject": (c.get("expect") or {}).get("reject")})
     n_corpus = len(jobs)
     n_own = ck.n(12, 300)
     n_sg = ck.n(5, 100)
@@ -372,6 +381,7 @@ def run(ck: Check) -> None:
                                 [(None, "conv", w, None) for w in ws]))
 
     bad_impl = 0
+    n_rejected_as_expected = 0
     for jb, r in zip(jobs, results):
         j = jb["id"]
         if "ast" not in r:
@@ -380,6 +390,11 @@ def run(ck: Check) -> None:
                          {"files": jb["files"], "order": jb["order"], "origin": jb["origin"], "error": str(r)[:1500]})
             continue
         perr = [n for n, a in r["ast"].items() if "parse_error" in a]
+        if perr and jb.get("expect_reject") and all(
+                "InvalidOptionValue" in r["ast"][n]["parse_error"] and jb["expect_reject"] in r["ast"][n]["parse_error"]
+                for n in perr):
+            n_rejected_as_expected += 1           # regression case of a fixed finding: rejected at compile time
+            continue
         if perr:
             bad_impl += 1
             ck.violation("the generator produced a schema the compiler rejects (generator bug or compiler regression): "
@@ -524,6 +539,7 @@ def run(ck: Check) -> None:
                   "inside_known_class": n_inside, "tie_mismatches": n_tie_bad, "mode_runs_clean": n_clean,
                   "mode_runs_outside_pre": n_outside_pre, "mode_runs_in_known_class": n_known,
                   "case_conversion_strings": len(words), "impl_failures": bad_impl,
+                  "rejected_as_expected": n_rejected_as_expected,
                   "schema_sets_over_declaration_budget_replaced": n_over_budget,
                   "corpus_known_reproduced": {k: sorted(v) for k, v in corpus_status.items()}}
     cov["distribution"] = feature
